@@ -380,7 +380,7 @@ func randCols(r *rng, depth int, weird bool, types bool) []colDesc {
 var scalarTexts = []string{`null`, `true`, `false`, `0`, `-0`, `1`, `-1`, `12`, `1.5`, `-2.25`, `1e2`, `1E+2`, `0.10`, `1e400`, `1e-400`, `123456789012345678901234567890`,
 	`255`, `256`, `-129`, `65536`, `2147483648`, `9223372036854775807`, `9223372036854775808`, `18446744073709551616`, `1632518460`, `253402300799`, `253402300800`, `-62167219201`, `-62135596800`, `0.5`,
 	`""`, `"a"`, `"12"`, `"-1"`, `"1.5"`, `"true"`, `"false"`, `"TRUE"`, `"t"`, `"1e2"`, `"0x10"`, `"010"`, `"NaN"`, `"Inf"`, `" 1"`, `"2021-09-24"`, `"2021-02-30"`, `"2021-9-24"`, `"2021-09-24T21:21:00Z"`,
-	`"2021-09-24T21:21:00+02:00"`, `"2021-09-24T21:21:00.5-03:30"`, `"2021-09-24T21:21:00"`, `"2021-09-24T21:21:00+24:60"`, `"0000-01-01T00:00:00Z"`, `"9999-12-31T23:59:59Z"`, `"1632518460"`,
+	`"2021-09-24T21:21:00+02:00"`, `"2021-09-24T21:21:00.5-03:30"`, `"2021-01-02T3:04:05Z"`, `"2021-01-02T03:04:05,5Z"`, `"2021-01-02T03:04:05.123456789123Z"`, `"2021-01-02T03:04:05.5+00:00"`, `"2021-09-24T21:21:00"`, `"2021-09-24T21:21:00+24:60"`, `"0000-01-01T00:00:00Z"`, `"9999-12-31T23:59:59Z"`, `"1632518460"`,
 	`"AQ=="`, `"AQAAAA=="`, `"AQAAAAAAAAA="`, `"aGVsbG8="`, `"aGVsbG9="`, `"aGVsbG8"`, `"!!"`, `"AAAAAAAA8D8="`, `"MTI="`, `"dHJ1ZQ=="`, `"é"`, `"😀"`, `"\n\t\"\\\/"`, `"<&>"`, `" "`, `"\u0000"`, `"\ud800"`,
 	`[]`, `[1,"a",null]`, `[{"q":1,"b":2}]`, `{}`, `{"q":1,"b":2}`, `{"zz":{"y":1,"x":[1,{"k":2,"a":3}]},"aa":2}`, `[[],[[]]]`}
 
@@ -574,6 +574,15 @@ func genC01(cw *caseWriter, seed uint64, tier string) {
 			many = append(many, fmt.Sprintf(`"k%06d":%d`, i, i%10))
 		}
 		emitLine(cw, "C01", nil, nil, []byte("{"+strings.Join(many, ",")+"}"), true)
+	}
+	// JSON text handed straight to Export (string and []byte), under the empty template and under one with a
+	// column: objects, non-object values, malformed text, objects holding ill-formed UTF-8
+	for _, t := range []string{`{"a":1}`, ` {"a" : [1, 2] } `, `[1,2,3]`, `42`, `null`, `"x"`, `true`, ``, ` `, `{`, `{"a":1}}`, `{"a":1} {"b":2}`, "{\"a\":\"\xff\"}", "{\"\xc3\":1}", "{\"a\":\"\xed\xa0\x80\"}",
+		`{"a":"\ud800"}`, "{\"a\":1}\n", "{\"a\":\n1}", `{"s":"<>&"}`, `{"n":1e400,"m":-0}`} {
+		for _, cols := range [][]colDesc{nil, {{name: "a", format: "auto", ty: "none"}}, {{name: "zz", format: "string", ty: "none"}}} {
+			emitText(cw, "C01", cols, []byte(t), false)
+			emitText(cw, "C01", cols, []byte(t), true)
+		}
 	}
 	// deep nesting
 	for _, d := range []int{1, 10, 64} {
@@ -917,7 +926,7 @@ type jgen struct {
 var numberSpellings = []string{"0", "-0", "1", "-1", "12", "1.5", "-2.25", "1E+2", "1e2", "1e-2", "0.10", "0.0", "1.0e0", "123456789012345678901234567890", "1e-400", "1e400", "-0.0e-0", "9223372036854775808", "0.1E1", "5e-324"}
 
 func (g *jgen) str() string {
-	classes := []string{"a", "b c", "é", "日本", "\U0001F600", "\\u00e9", "\\ud83d\\ude00", "\\n", "\\t", "\\\"", "\\\\", "\\/", "\\b\\f\\r", "\\u0000", "\\u001f", "<>&", "\\u2028", "\u2028", "\\u007f", "\x7f", "'", "`", " ", ""}
+	classes := []string{"\\\\u003c", "\\\\u0026x", "\\\\u003e", "\\\\n", "\\\\\\\"", "a", "b c", "é", "日本", "\U0001F600", "\\u00e9", "\\ud83d\\ude00", "\\n", "\\t", "\\\"", "\\\\", "\\/", "\\b\\f\\r", "\\u0000", "\\u001f", "<>&", "\\u2028", "\u2028", "\\u007f", "\x7f", "'", "`", " ", ""}
 	var sb strings.Builder
 	for k := g.r.intn(4); k > 0; k-- {
 		sb.WriteString(pick(g.r, classes))
@@ -963,7 +972,9 @@ func (g *jgen) object(d int) string {
 	if k == 0 {
 		return "{" + g.ws() + "}"
 	}
-	keys := []string{"zz", "aa", "m", "", "é", "a.b", "k\\n", "\\u0041", "x y", "0", "\U0001F600"}
+	// incl. names that are equal under case folding (id/ID/Id, k/K/Kelvin sign) and a name holding a literal
+	// backslash in front of text that looks like an escape
+	keys := []string{"zz", "aa", "m", "", "é", "a.b", "k\\n", "\\u0041", "x y", "0", "\U0001F600", "id", "ID", "Id", "k", "K", "\u212a", "É", "\\\\u003c"}
 	for i := len(keys) - 1; i > 0; i-- {
 		j := g.r.intn(i + 1)
 		keys[i], keys[j] = keys[j], keys[i]
@@ -1117,7 +1128,7 @@ func genC16(cw *caseWriter, seed uint64, tier string) {
 	hand := []string{``, ` `, `{}`, ` {} `, `{} x`, `{}{}`, `{}[]`, `{},`, `[{}]`, `[1]`, `1`, `"x"`, `null`, `true`, `{`, `}`, `{"a"`, `{"a":`, `{"a":1`, `{"a":1,`, `{"a":1,}`, `{,}`, `{"a" 1}`, `{"a":1 "b":2}`,
 		`{'a':1}`, `{a:1}`, `{"a":01}`, `{"a":1.}`, `{"a":.5}`, `{"a":+1}`, `{"a":-}`, `{"a":1e}`, `{"a":1e+}`, `{"a":tru}`, `{"a":nul}`, `{"a":truex}`, `{"a":[1,]}`, `{"a":[1 2]}`, `{"a":[}`, `{"a":]}`,
 		`{"a":{}}}`, `{"a":"\x"}`, `{"a":"\u12"}`, `{"a":"\u12G4"}`, "{\"a\":\"\x01\"}", "{\"a\":\"\n\"}", "\xef\xbb\xbf{}", "{}\x00", "{\"a\":1}\x00", "\x00{}", `{"a":"unterminated}`, `{"a":1}}`, `{{}}`, `{"a":{"b":1}`,
-		`{"a":1}//c`, `{"a":1}/**/`, `{"a":NaN}`, `{"a":Infinity}`, `{"a":0x10}`, `{"a":1_000}`, `{"a":"\ud800"}`, "{\"a\":\"\xff\"}", `{"a":"\/"}`, `{"a":"\'"}`, `{"\u0061":1}`, "{\t\"a\"\t:\t1\t}", "{\r\"a\":1}", "{\"a\":1}\r",
+		`{"a":1}//c`, `{"a":1}/**/`, `{"a":NaN}`, `{"a":Infinity}`, `{"a":0x10}`, `{"a":1_000}`, `{"a":"\ud800"}`, "{\"a\":\"\xff\"}", `{"a":"\/"}`, `{"a":"\'"}`, `{"\u0061":1}`, "{\t\"a\"\t:\t1\t}", "{\r\"a\":1}", "{\"a\":1}\r", "\r{\"a\":1}", "{\"a\":1}\r\r", "{\"a\":1} \r ", "\t\r {\"a\":1}\r\t\r", "\r\r{}\r\r", "{\"a\":1}\"", "{\"a\":1}t", "{\"a\":1} fals", "{\"a\":1}-", "{\"a\":1}1e", "{\"a\":1}0.", "{\"a\":1}\"abc",
 		"{\"a\"\x0b:1}", "{\"a\":1}\x0c", "{\xa0}", `{"a":1,"a":2}`, `{"":1}`, `{"a":[[[[[[[[[[1]]]]]]]]]]}`, `{"a":-0}`, `{"a":-01}`, `{"a":1E400}`, `{"a":"` + strings.Repeat("x", 70000) + `"}`}
 	for _, h := range hand {
 		emitAccept(cw, nil, []byte(h), true)
